@@ -336,8 +336,18 @@ func runToBytes(id int, m *desc.Msg, extra ...string) {
 	var fm *fix.Message
 	var err error
 	reser := false
+	viaTpl := false
 	p := guarded(func() {
-		fm = m.Build()
+		// every second message with groups is built the way an application builds entries from
+		// the group's own template (AsTemplate, setters, AddEntry); the wire image must be the same
+		if id%2 == 0 && m.HasGroup() {
+			if x := m.BuildViaTemplates(); x != nil {
+				fm, viaTpl = x, true
+			}
+		}
+		if fm == nil {
+			fm = m.Build()
+		}
 		b, err = fm.ToBytes()
 		// multi-step use: a message already serialized once is changed through a setter and
 		// serialized again; the description (hence the model's input) follows the change
@@ -348,6 +358,9 @@ func runToBytes(id int, m *desc.Msg, extra ...string) {
 			}
 		}
 	})
+	if viaTpl {
+		extra = append(extra, "entries-from-AsTemplate")
+	}
 	if reser {
 		rec.Case = "TOBYTES " + m.Enc()
 		extra = append(extra, "reserialized-after-change")
@@ -625,7 +638,7 @@ func lengthTarget(L int) *desc.Msg {
 	m := &desc.Msg{BsTag: "8", BlTag: "9", CsTag: "10", MtTag: "35", Bs: "FIX.4.4", Mt: "A"}
 	switch {
 	case L == 8:
-		m.Mt = "AB" // "35=AB|"=6 + "1=|"? cannot; use "35=ABCDE|" = 9? keep simple: 35=ABCDE -> 9 bytes
+		m.Mt = "AB"   // "35=AB|"=6 + "1=|"? cannot; use "35=ABCDE|" = 9? keep simple: 35=ABCDE -> 9 bytes
 		m.Mt = "ABCD" // "35=ABCD|" = 8
 	case L == 9:
 		m.Body = []*desc.Item{{Kind: 'K', Tag: "1", V: &desc.Val{Kind: 'S', Valid: true, S: []byte("x"), Route: "new"}}}
